@@ -95,13 +95,39 @@ def run_tlc(module, cfg_text, wd, name, workers=8, timeout=1800, env=None, extra
     if extra:
         cmd += extra
     cmd += [os.path.join(SPEC, module + ".tla")]
+    # A TLC run whose input is the specification alone (no recorded trace) depends on nothing in /repo: its output
+    # is reused by later checks of the same session when specification, module, configuration and options are
+    # byte-identical (several checks enumerate the same universe; each replays it on the code again).
+    ckey = None
+    if env is None and not os.environ.get("VERIF_NO_TLC_CACHE"):
+        h = hashlib.sha256()
+        for fn in sorted(os.listdir(SPEC)):
+            if fn.endswith(".tla"):
+                h.update(fn.encode()); h.update(open(os.path.join(SPEC, fn), "rb").read())
+        h.update(repr((module, cfg_text, simulate, extra, deque, coverage)).encode())
+        ckey = os.path.join(VERIF, ".work", "tlc-cache", h.hexdigest())
     t0 = time.time()
-    with open(out, "w") as fo:
-        p = subprocess.run(cmd, cwd=SPEC, env=e, stdout=fo, stderr=subprocess.STDOUT)
-    wall = time.time() - t0
-    shutil.rmtree(meta, ignore_errors=True)
+    cached = False
+    if ckey and os.path.exists(ckey + ".out") and os.path.exists(ckey + ".rc"):
+        shutil.copyfile(ckey + ".out", out)
+        rc = int(open(ckey + ".rc").read().split()[0])
+        wall = float(open(ckey + ".rc").read().split()[1])
+        cached = True
+    else:
+        with open(out, "w") as fo:
+            p = subprocess.run(cmd, cwd=SPEC, env=e, stdout=fo, stderr=subprocess.STDOUT)
+        rc = p.returncode
+        wall = time.time() - t0
+        shutil.rmtree(meta, ignore_errors=True)
+        if ckey and rc != 124 and os.path.getsize(out) < 400 * 1024 * 1024:
+            os.makedirs(os.path.dirname(ckey), exist_ok=True)
+            shutil.copyfile(out, ckey + ".out")
+            with open(ckey + ".rc", "w") as f:
+                f.write("%d %.2f" % (rc, wall))
+    class _P: pass
+    p = _P(); p.returncode = rc
     res = {"module": module, "wall_s": round(wall, 2), "rc": p.returncode, "out": out, "exports": [],
-           "states": 0, "distinct": 0, "error": None, "coverage": {}}
+           "states": 0, "distinct": 0, "error": None, "coverage": {}, "cached": cached}
     if p.returncode == 124:
         raise ToolError("TLC timed out on %s after %ds" % (module, timeout))
     err_lines = []
@@ -130,9 +156,9 @@ def run_tlc(module, cfg_text, wd, name, workers=8, timeout=1800, env=None, extra
         res["error"] = "\n".join(err_lines)
     elif p.returncode != 0:
         res["error"] = "TLC exit code %d (see %s)" % (p.returncode, out)
-    log("[tlc] %s/%s: %d states (%d distinct), %d exports, %.1fs%s" % (
+    log("[tlc] %s/%s: %d states (%d distinct), %d exports, %.1fs%s%s" % (
         module, name, res["states"], res["distinct"], len(res["exports"]), wall,
-        ", ERROR" if res["error"] else ""))
+        " (output of an identical run reused)" if cached else "", ", ERROR" if res["error"] else ""))
     return res
 
 
@@ -185,7 +211,8 @@ class Verdict:
     def add_tlc(self, r):
         self.cov["states"] += r["distinct"]
         self.cov["transitions"] += r["states"]
-        self.stage_info.append({"tlc": r["module"], "distinct": r["distinct"], "generated": r["states"], "wall_s": r["wall_s"]})
+        self.stage_info.append({"tlc": r["module"], "distinct": r["distinct"], "generated": r["states"], "wall_s": r["wall_s"],
+                                "output_reused_from_identical_run": bool(r.get("cached"))})
 
     def add_report(self, rep, stage, traces=0):
         self.cov["evaluations"] += rep.get("evaluations", 0)
